@@ -420,7 +420,14 @@ also('C17', 'the kept subsystems of partial_trace are normalised through sorted(
 also('C18', 'trial-division sweeps include the integer square root (TD1); a buffer allocated from a scalar parameter receives no quotient / root item store (DT14); the return_dm conversion is the last transformation of the result (RD2).')
 also('C20', 'accumulating loops of the certificate routines append on every iteration (DROP1); the subset_by_index windows of the two ends of the spectrum have equal width (EVS1).')
 
+# ---- clauses added with the round-9 rules
+also('C01', 'a Cholesky-factor buffer typed after the parameter vector is guarded by a floating-dtype assert on its own path (DT1 through local dtype names).')
+also('C04', 'no custom backward writes in place into an array that aliases a saved tensor or an incoming gradient (A13).')
+also('C07', 'the exported circuit sizes its register from every index slot (H7B) and to_unitary types its image buffer complex (U1).')
+also('C11', 'every store into the collapsed buffer reads the pre-measurement state (M4: the surviving amplitude keeps its phase).')
+also('C14', 'an index packed as B*u + v takes its base from a size name, not a literal (MR3).')
+
 for _p in sorted(CLAIMS):
     also(_p, 'no function outside the reviewed set of 24 memoised functions is decorated with lru_cache / cache (or keeps a module-level memo) while returning an unfrozen '
              'NumPy / torch object (MC3: no new shared mutable result in the modules of this property; package-wide in the thorough tier); no function of those modules writes in place into (a view of) an '
-             'array it was given (PU1, incl. `x op= v` on an array parameter); every module-level memo is keyed on all inputs of the stored value (MC1); no certainly-real buffer receives a certainly-complex value (DTF1); no reshape regroups symbolically typed axes in another factor order and no product pairs two merged axes of different factor order (FL1 axis-order typing); no computed local is left unread while its neighbour stands twice in one later statement (UV1: substitution evidence only); an option is forwarded to a same-named option of a numqi helper on a delegating branch (FW2); eigh eigenvectors are transposed only with conjugation (EVH1); no real cast of an array inside a branch whose dtype test admits complex (CAST1); no operand combined with itself, no conditional with identical arms (SELF1).')
+             'array it was given (PU1, incl. `x op= v` on an array parameter); every module-level memo is keyed on all inputs of the stored value (MC1); no certainly-real buffer receives a certainly-complex value (DTF1); no reshape regroups symbolically typed axes in another factor order and no product pairs two merged axes of different factor order (FL1 axis-order typing); no computed local is left unread while its neighbour stands twice in one later statement (UV1: substitution evidence only); an option is forwarded to a same-named option of a numqi helper on a delegating branch (FW2); eigh eigenvectors are transposed only with conjugation (EVH1); no real cast of an array inside a branch whose dtype test admits complex (CAST1); no operand combined with itself, no conditional with identical arms (SELF1); no `.T` on an array treated as a batch (BT1); np.outer(x, x) of a complex vector conjugates (OUT2); no real accumulator dtype over a complex-capable tensor (RK1); `.real` is never taken of an unconjugated self-product (CJ1).')
